@@ -110,9 +110,21 @@ ServeClauses(g, e) ==
         \/ (g.served[e.subs[i]] # 0 /\ g.served[e.subs[i]] # e.node[i])
   THEN {"ServedByOne"} ELSE {}
 
+\* e = [op = "servecut", ...as serve]: the connection that carries the request to another node is cut after
+\* the request was delivered (the statement is silent about whether such a request succeeds). Whatever the
+\* entry node answers, the subscriber is in at most one node's pool afterwards; an answer that claims success
+\* names that node; and a subscriber already served stays where it was served.
+CutClauses(g, e) ==
+  IF \E i \in Idx(e.subs) :
+        \/ Cardinality(AsSet(e.holders[i])) > 1
+        \/ (e.ok[i] /\ (AsSet(e.holders[i]) # {e.node[i]} \/ e.ippool[i] # e.node[i]))
+        \/ (g.served[e.subs[i]] # 0 /\ ~(AsSet(e.holders[i]) \subseteq {g.served[e.subs[i]]}))
+  THEN {"ServedByOne"} ELSE {}
+
 EdgeClauses(cfg, g, e) ==
   CASE e.op \in {"cfg", "add", "remove", "health"} -> ObsClauses(cfg, g, e)
     [] e.op = "serve" -> ServeClauses(g, e)
+    [] e.op = "servecut" -> CutClauses(g, e)
     [] e.op = "release" ->   \* a release entering at any node reaches the one pool that holds the subscriber
          IF \E i \in Idx(e.subs) : AsSet(e.holders[i]) # {} THEN {"ServedByOne"} ELSE {}
     [] OTHER -> {}
@@ -126,6 +138,12 @@ Step(cfg, g, e, obs) ==
          [g EXCEPT !.served = [s \in DOMAIN g.served |->
                                  IF g.served[s] = 0 /\ \E i \in Idx(e.subs) : e.subs[i] = s
                                  THEN e.node[CHOOSE i \in Idx(e.subs) : e.subs[i] = s]
+                                 ELSE g.served[s]]]
+    [] e.op = "servecut" ->   \* whoever holds the subscriber now is where it is served from now on
+         [g EXCEPT !.served = [s \in DOMAIN g.served |->
+                                 IF g.served[s] = 0 /\ \E i \in Idx(e.subs) : e.subs[i] = s /\ AsSet(e.holders[i]) # {}
+                                 THEN LET i == CHOOSE i \in Idx(e.subs) : e.subs[i] = s /\ AsSet(e.holders[i]) # {}
+                                      IN CHOOSE x \in AsSet(e.holders[i]) : TRUE
                                  ELSE g.served[s]]]
     [] e.op = "release" ->
          [g EXCEPT !.served = [s \in DOMAIN g.served |-> IF \E i \in Idx(e.subs) : e.subs[i] = s THEN 0 ELSE g.served[s]]]
